@@ -449,7 +449,7 @@ pub fn run(rep: &mut StageReport, tier: &str, _seed: u64) {
     let thorough = tier == "thorough";
     let mut plan: Vec<(usize, bool)> = if thorough {
         let mut v = vec![];
-        for q in [0usize, 1, 50, 99, 100, 101, 102, 103, 150, 250, 400] {
+        for q in [0usize, 1, 50, 99, 100, 101, 102, 103, 150, 250, 400, 700, 1500] {
             v.push((q, false));
             if q > 0 && q <= 150 {
                 v.push((q, true));
@@ -457,7 +457,7 @@ pub fn run(rep: &mut StageReport, tier: &str, _seed: u64) {
         }
         v
     } else {
-        vec![(0, false), (105, false), (160, false), (60, true)]
+        vec![(0, false), (105, false), (160, false), (60, true), (700, false)]
     };
     if thorough {
         plan.push((130, false));
